@@ -61,7 +61,7 @@ def showPC : PC → String
   | .cy0 w => s!"cy0:{showW w}" | .cy1 w s => s!"cy1:{showW w}:{s}"
   | .cc0 w => s!"cc0:{showW w}" | .cc1 w s => s!"cc1:{showW w}:{s}"
   | .ld0 w => s!"ld0:{showW w}" | .ld1 w s => s!"ld1:{showW w}:{s}"
-  | .pub t => s!"pub:t{t}" | .clean t => s!"clean:t{t}" | .imp2 => "imp2"
+  | .pub t => s!"pub:t{t}" | .pub1 t => s!"pub1:t{t}" | .clean t => s!"clean:t{t}" | .imp2 => "imp2"
   | .loaded s => s!"loaded:{s}" | .failed => "failed" | .crashed => "crashed" | .killed => "killed"
 
 def isPyx0 : PC → Bool
